@@ -26,6 +26,7 @@ class SimGen(Generator):
         self.capture = None  # None, or list collecting scalar uniforms
         self.script = None  # scripted value for the next scalar uniform
         self.budget = None  # max draw *calls* before DrawBudgetExceeded
+        self.normals = None  # list collecting standard_normal results (C12: unadjusted momenta)
 
     def _note(self, name, size):
         self.ndraws += 1
@@ -50,7 +51,10 @@ class SimGen(Generator):
 
     def standard_normal(self, size=None, *a, **kw):
         self._note("standard_normal", size)
-        return super().standard_normal(size, *a, **kw)
+        out = super().standard_normal(size, *a, **kw)
+        if self.normals is not None:
+            self.normals.append(np.array(out, copy=True))
+        return out
 
     def normal(self, loc=0.0, scale=1.0, size=None):
         self._note("normal", size)
